@@ -237,30 +237,50 @@ template <int SID, bool SER = false> struct Beh : SerOpt<SER> {
 typedef mpl::vector<> NoList;
 template <int K> struct Fl {};   // user flags
 
+// base class of every state (C03: get_state_by_id and the active-state visitor of back / back11).  With VCFG_VIS the states are
+// polymorphic, accept a visitor that records the visited state's global index, and get_state_by_id hands out this base.
+#if defined(VCFG_VIS)
+struct VVis { std::vector<int> seen; };
+struct VBase {
+    typedef msm::back::args<void, VVis&> accept_sig;
+    virtual ~VBase() {}
+    virtual int vsid() const { return -1; }
+    void accept(VVis& v) const { v.seen.push_back(vsid()); }
+};
+typedef VBase StBase;
+#define VRT_VSID(SID) int vsid() const override { return SID; }
+#else
+typedef msm::front::default_base_state StBase;
+#define VRT_VSID(SID)
+#endif
+
 template <int SID, class Defers = NoList, class Flags = NoList, class ITab = NoList, bool SER = false>
-struct St : msm::front::state<>, Beh<SID, SER> {
+struct St : msm::front::state<StBase>, Beh<SID, SER> {
+    VRT_VSID(SID)
     typedef Defers deferred_events; typedef Flags flag_list;
     typedef ITab internal_transition_table;
     using Beh<SID, SER>::on_entry; using Beh<SID, SER>::on_exit;
 };
 template <int SID, int ZONE, class Defers = NoList, class Flags = NoList, class ITab = NoList>
-struct StX : msm::front::state<>, msm::front::explicit_entry<ZONE>, Beh<SID> {
+struct StX : msm::front::state<StBase>, msm::front::explicit_entry<ZONE>, Beh<SID> {
+    VRT_VSID(SID)
     typedef Defers deferred_events; typedef Flags flag_list;
     typedef ITab internal_transition_table;
     using Beh<SID>::on_entry; using Beh<SID>::on_exit;
 };
 template <int SID, int ZONE>
-struct StEP : msm::front::entry_pseudo_state<ZONE>, Beh<SID> { using Beh<SID>::on_entry; using Beh<SID>::on_exit; };
+struct StEP : msm::front::entry_pseudo_state<ZONE, StBase>, Beh<SID> { VRT_VSID(SID) using Beh<SID>::on_entry; using Beh<SID>::on_exit; };
 template <int SID, class EVT>
-struct StXP : msm::front::exit_pseudo_state<EVT>, Beh<SID> { using Beh<SID>::on_entry; using Beh<SID>::on_exit; };
+struct StXP : msm::front::exit_pseudo_state<EVT, StBase>, Beh<SID> { VRT_VSID(SID) using Beh<SID>::on_entry; using Beh<SID>::on_exit; };
 template <int SID, class Flags = NoList>
-struct StT : msm::front::terminate_state<>, Beh<SID> { typedef Flags flag_list; using Beh<SID>::on_entry; using Beh<SID>::on_exit; };
+struct StT : msm::front::terminate_state<StBase>, Beh<SID> { VRT_VSID(SID) typedef Flags flag_list; using Beh<SID>::on_entry; using Beh<SID>::on_exit; };
 template <int SID, class Ends, class Flags = NoList>
-struct StI : msm::front::interrupt_state<Ends>, Beh<SID> { typedef Flags flag_list; using Beh<SID>::on_entry; using Beh<SID>::on_exit; };
+struct StI : msm::front::interrupt_state<Ends, StBase>, Beh<SID> { VRT_VSID(SID) typedef Flags flag_list; using Beh<SID>::on_entry; using Beh<SID>::on_exit; };
 
 // front-end base of every machine.  SID = global state index of the machine's own name.
 template <class Derived, int SID, bool SER = false>
-struct MDef : msm::front::state_machine_def<Derived>, SerOpt<SER> {
+struct MDef : msm::front::state_machine_def<Derived, StBase>, SerOpt<SER> {
+    VRT_VSID(SID)
     static constexpr int verif_sid = SID;
     int vinst = -1;
     template <class E, class F> void on_entry(E const& e, F& f) { this->data++; cb("en", SNAME[SID], e, f, -1, true, true, -1); }
